@@ -30,11 +30,50 @@ def lemma(text):
     return h
 
 
+# unsafe fns that make unsafe calls on operands DERIVED from their parameters (sub-slices, offsets, elements):
+# the enclosing contract alone does not cover those; each such function is pinned by an exact shape/formula rule.
+DERIVED_COVERED = [
+    (r"FoldSizeIter>::fold_size$", "F1.formula (size folds)"),
+    (r"::(vec|string|flex)::Empty as flatty_base::emplacer::Emplacer<.*>>::emplace_unchecked$", "D3.empty-writes-zero"),
+    (r"flex::FromIterator<T, E, I> as flatty_base::emplacer::Emplacer<.*>>::emplace_unchecked$", "P6.*, F4.*, R3.*"),
+    (r"(vec::FlatVec<T, L>|string::FlatString<L>|flex::FlexVec<T, L>) as flatty_base::traits::FlatValidate>::validate_unchecked$", "V1/V3/V4/V5 container validators"),
+    (r"FlatValidate for \[T; N\]>::validate_unchecked$", "V1.array-elements"),
+    (r"flatty_base::traits::FlatValidate::validate_ptr$", "F7.method"),
+    (r"flatty_base::traits::FlatUnsized::(from_bytes_unchecked|from_mut_bytes_unchecked|as_mut_bytes)$", "F7.method"),
+    (r"flatty_base::utils::mem::", "F1.formula (pointer helpers)"),
+    (r"(vec::FlatVec<T, L>|string::FlatString<L>|flex::FlexVec<T, L>) as flatty_base::traits::FlatUnsized>::ptr_(from|to)_bytes$", "F1.formula (view extents)"),
+    (r"^<T as flatty_base::emplacer::Emplacer<T>>::emplace_unchecked$", "F7.sized-emplacer"),
+    (r"^<T as flatty_base::traits::FlatUnsized>::ptr_(from|to)_bytes$", "F1.formula"),
+    (r"flatty_portable::bool_::Bool as flatty_base::traits::FlatValidate>::validate_unchecked$", "V2.tag-accept-set"),
+    (r"utils::iter::Unchecked(Ref|Mut)Data::<'a>::new$", "P7.unchecked-views"),
+    (r"flatty_io::.*SendGuard::<'a, M, B, false>::assume_init$", "io typestate (unsafe fn, documented)"),
+    (r"flatty_containers::wrap::FlatWrap::<F, P>::from_wrapped_bytes_unchecked$", "F7.wrap-callers"),
+    (r"utils::iter::DataIter::<'a, D, I>::new_unchecked$", "F1.formula"),
+]
+GEN_COVERED = {"validate_unchecked": "F6.validate-*, V5, G2", "emplace_unchecked": "F6.init-*, V5i, R1", "ptr_from_bytes": "F1.enum-view / F1.struct-view",
+               "ptr_to_bytes": "F1.enum-bytes / F1.struct-bytes"}
+
+
 def contract(text):
     def h(ctx, bj, body, site):
-        if bj["unsafe"]:
-            return True, "contract of unsafe fn (%s); callers are gated (G1) or are unsafe themselves" % text
-        return False, "site is in a safe fn: a contract cannot discharge it"
+        if not bj["unsafe"]:
+            return False, "site is in a safe fn: a contract cannot discharge it"
+        if site["kind"] == "unsafe-call":
+            direct = all(re.fullmatch(r"\$\w+(\.\d+)?|[\w:]+\{\}|[0-9]+", a) for a in site["ops"])  # params, unit structs, literals
+            if not direct:
+                if bj["krate"] == "flatty_corpus" and bj.get("impl"):
+                    cov = GEN_COVERED.get(bj["impl"].get("method") or "")
+                else:
+                    cov = None
+                    for dre, why in DERIVED_COVERED:
+                        if re.search(dre, bj["def"]):
+                            cov = why
+                            break
+                if cov is None:
+                    return False, ("unsafe call on an operand derived from the parameters inside an unsafe fn that no shape rule covers: "
+                                   "the enclosing contract does not extend to sub-slices / offsets")
+                return True, "contract of unsafe fn (%s); the derived operand is pinned by %s" % (text, cov)
+        return True, "contract of unsafe fn (%s); callers are gated (G1) or are unsafe themselves" % text
     return h
 
 
